@@ -36,6 +36,35 @@ pub fn neighbours(p: &mutate::Pool, base: usize) -> Vec<usize> {
     v
 }
 
+/// The same oracle at the command line: the mutated file is given to `kestrel decrypt`; exit 0 must mean the
+/// complete plaintext of the governing authentic file is in the output and the sender line names its sender.
+static CLI_KEYRINGS: std::sync::Mutex<Vec<(u64, String)>> = std::sync::Mutex::new(Vec::new());
+fn cli_keyring(p: &mutate::Pool, seed: u64) -> String {
+    if let Some((_, k)) = CLI_KEYRINGS.lock().unwrap().iter().find(|(s, _)| *s == seed) { return k.clone(); }
+    use crate::keyring::Keyring; use kestrel_crypto::{PrivateKey, PublicKey};
+    let mut t = String::new();
+    for (i, id) in p.ids.iter().enumerate() {
+        let epk = Keyring::encode_public_key(&PublicKey::try_from(&id.pk[..]).unwrap());
+        if i >= 3 { let esk = Keyring::lock_private_key(&PrivateKey::try_from(&id.sk[..]).unwrap(), b"pool-pw", crate::gen::key32(seed + i as u64, "pool-salt")); t.push_str(&format!("[Key]\nName = id{}\nPublicKey = {}\nPrivateKey = {}\n\n", i, epk.as_str(), esk.as_str())); }
+        else { t.push_str(&format!("[Key]\nName = id{}\nPublicKey = {}\n\n", i, epk.as_str())); }
+    }
+    CLI_KEYRINGS.lock().unwrap().push((seed, t.clone())); t
+}
+pub fn check_cli(c: &MCase) -> CheckResult {
+    let p = mutate::pool(c.sel, c.pool_seed); let base = &p.files[c.m.base % p.files.len()]; let f = mutate::apply(&p, &c.m);
+    let sb = crate::cli::Sandbox::new(); sb.write("k.txt", cli_keyring(&p, c.pool_seed).as_bytes()); sb.write("in.ktl", &f);
+    let r = sb.cmd(&["decrypt", "in.ktl", "-t", &format!("id{}", base.recipient), "-o", "out.bin", "-k", "k.txt", "--env-pass"]).env("KESTREL_PASSWORD", "pool-pw").run();
+    crate::ensure!(!r.timed_out && r.signal.is_none() && matches!(r.code, Some(0) | Some(1)), "kestrel decrypt ended abnormally: {}", r.describe());
+    let out = sb.read("out.bin").unwrap_or_default();
+    let authentic = p.files.iter().find(|a| a.mode == base.mode && a.recipient == base.recipient && a.masked_eq(&f));
+    if r.code == Some(0) {
+        let a = authentic.ok_or_else(|| format!("`kestrel decrypt` exited 0 for a file that is not authentic outside counter fields ({} bytes presented, {} bytes written)", f.len(), out.len()))?;
+        crate::ensure!(out == a.plain, "`kestrel decrypt` exited 0 but wrote {} bytes, the complete plaintext has {}", out.len(), a.plain.len());
+        crate::ensure!(r.stderr_s().contains(&format!("File from: id{}", a.sender)), "sender line does not name the file's sender: {}", r.stderr_s());
+    }
+    ok(authentic.is_none(), format!("cli/{}{}", mutate::classify(&p, &c.m), if r.code == Some(0) { "(accepted)" } else { "" }))
+}
+
 pub fn run(ctx: &Ctx) {
     set_rule("C03", "authentic pools built with the implementation's own encryptor (key mode: 24 small files from 3 senders to 2 recipients + 4 files with 64 KiB chunks; password mode: 6 files; hook layer: 2x36 streams with their own keys and chunk sizes 1/2/4) x mutation programs (bit flips, set byte, truncate, append, record sequences incl. drop/dup/reorder/splice from other files, flag/length/counter edits, header-field exchange). SSE: every single-bit flip, every truncation, every 1-byte extension, every record sequence up to the bound, all listed flag/length values, every header-field and chunk-range exchange with two other files to the same recipient. Non-trivial = mutated file differs from every authentic pool file outside the 8-byte counter fields and starts with a valid magic; distinct by hash of (pool, program) / enumeration index");
     ctx.assume("AEAD forgery by a random modification (probability 2^-128 per case) is ignored; edits confined to the advisory counter fields may be accepted or rejected");
@@ -72,5 +101,7 @@ pub fn run(ctx: &Ctx) {
         let _ = p;
         ctx.sse_vec("sse_pass_header", "all 288 header bits of a password-mode file through pass_decrypt", cases, check);
     }
+    ctx.shrink_iters.store(30, std::sync::atomic::Ordering::Relaxed);
+    ctx.pbt("cli_decrypt_mutants", ctx.n(240, 6_000), || strat(PoolSel::KeySmall, seed, 3, 100), check_cli);
     ctx.put("accepted_mutants", serde_json::json!(ACCEPTED.load(Ordering::Relaxed)));
 }
